@@ -18,7 +18,8 @@ RULE = ("one case = one (content, operation+arguments, layout) triple; every con
         "operations run across layouts in the streams of C07/C09-C13; distinct = (op, layout, sizes); non-trivial = result neither "
         "error nor identity; a difference between layouts is reported on the layout that deviates from the spec")
 ASSUMPTIONS = ["layouts are those reachable with the library and standard Arrow kernels; a missing row over hidden non-empty children "
-               "(only constructible with StructArray.from_arrays(mask=...)) is the known finding KF-hidden-children and gets its own cases"]
+               "(only constructible with StructArray.from_arrays(mask=...), also with NULL child lists that span elements) is normalised by the "
+               "constructor since the repair of the former finding KF-hidden-children and gets its own cases"]
 CORRESPONDENCE = "m_step (Steps.v) on the physical read-back of every layout vs the real operation"
 LAYOUTS = list(gen.LAYOUTS)
 EXTRA_IMPORTS = "NumpyView"
